@@ -955,6 +955,57 @@ class HwloadComponent(Component):
                           nontrivial=str(i[0]) == "ok" and len(case["isa"]) >= 2)
 
 
-COMPONENTS = {c.name: c for c in [HwloadComponent(), SimComponent(), IcaseComponent(), BagComponent(), RegqComponent(),
+
+# =============================================================================== flow analysis (C09/C11)
+class FlowComponent(Component):
+    """the bus-width analysis behind BlockedCapError, step by step (model/Flow.v against the private helpers
+    of processor_utils._checks / cap_anal_utils), and its abstraction Loader.chk_flow"""
+    name = "flow"
+
+    def make(self, rng, params):
+        n = gen.big(rng, params.get("nmax", 7), 18, 0.03, lo=2)      # the loader runs the analysis for > 1 unit
+        names = rng.sample(rng.choice(gen.NAME_POOLS), n) if n <= 10 else [f"n{i}" for i in range(n)]
+        order = list(range(n))
+        rng.shuffle(order)                       # listing order independent of the topological order
+        es = gen.rand_dag(rng, n, pedge=rng.choice([0.2, 0.35, 0.6]))
+        caps = gen.CAPS[: rng.randint(1, 3)]
+        wmax = 9 if rng.random() < 0.05 else 3
+        units = []
+        for i in order:
+            c = [x for x in caps if rng.random() < 0.7] or [rng.choice(caps)]
+            units.append([names[i], rng.randint(1, wmax), c])
+        edges = [[names[a], names[b]] for a, b in es]
+        rng.shuffle(edges)
+        cap = rng.choice(caps)
+        tg = {e[1] for e in edges}
+        sr = {e[0] for e in edges}
+        outs = [u[0] for u in units if u[0] not in sr]
+        ins = [u[0] for u in units if u[0] not in tg and cap in u[2]]
+        return {"units": units, "edges": edges, "cap": cap, "outs": outs, "ins": ins}
+
+    def run(self, case):
+        import implrun
+        impl = implrun.run_flow(case["units"], [tuple(e) for e in case["edges"]], case["cap"], case["outs"], case["ins"])
+        return [case["units"], case["edges"], case["cap"], case["outs"], case["ins"]], impl
+
+    def judge(self, case, impl, res):
+        m = jsonable(res["model"][0])
+        i = jsonable(impl)
+        nodes_m, caps_m, t_m, flows_m, abs_m, det_m = m
+        nodes_i, caps_i, t_i, flows_i, verdict_i = i
+        graph_same = nodes_m == nodes_i and sorted(caps_m) == sorted(caps_i) and t_m == t_i
+        if isinstance(det_m, list) and str(det_m[0]) == "crash":
+            det_m = ["crash", {"error": "NetworkXError", "unbounded": "NetworkXUnbounded"}.get(str(det_m[2]), str(det_m[2]))]
+        agree = {"graph": graph_same, "flows": flows_m == flows_i, "detailed": det_m == verdict_i,
+                 "abstract": abs_m == verdict_i}
+        agree["verdict"] = agree["detailed"] and agree["abstract"]
+        kinds = sorted({str(f[1]) for f in flows_i}) or ["noports"]
+        return std_report(case, agree, m, i, {}, tags=[f"verdict:{verdict_i[0] if isinstance(verdict_i, list) else verdict_i}",
+                                                       f"nodes:{len(nodes_i)}", f"split:{len(nodes_i) - len(case['units'])}"] +
+                          [f"flow:{k}" for k in kinds],
+                          nontrivial=len(case["units"]) >= 3 and bool(case["ins"]))
+
+
+COMPONENTS = {c.name: c for c in [FlowComponent(), HwloadComponent(), SimComponent(), IcaseComponent(), BagComponent(), RegqComponent(),
                                   ParseComponent(), IsaComponent(), AbilitiesComponent(), LoaderComponent(),
                                   MkprocComponent(), PipelineComponent(), RecaseComponent()]}
